@@ -1595,6 +1595,76 @@ func (h *c02) eipClasses() {
 		sort.Strings(coll)
 		return
 	}
+	// injectivity in the CONTENT of one message type: two messages that differ in one integer field (values next to each
+	// other around 2^53 and 2^63, where a detour through floating point would merge them) must not share their legacy-amino
+	// sign bytes - a signature over one would authorise the other
+	var insensitive []string
+	for _, url := range reg.ListImplementations(sdk.MsgInterfaceProtoName) {
+		if !strings.Contains(url, "/kira.") {
+			continue
+		}
+		pm, err := reg.Resolve(url)
+		if err != nil {
+			continue
+		}
+		msg, ok := pm.(sdk.Msg)
+		if !ok {
+			continue
+		}
+		if _, ok := msg.(legacytx.LegacyMsg); !ok {
+			continue
+		}
+		func() {
+			defer func() { recover() }()
+			h.fill(reflect.ValueOf(msg), 0)
+		}()
+		rv := reflect.ValueOf(msg)
+		if rv.Kind() != reflect.Ptr || rv.Elem().Kind() != reflect.Struct {
+			continue
+		}
+		st := rv.Elem()
+		for i := 0; i < st.NumField(); i++ {
+			f := st.Field(i)
+			if !f.CanSet() {
+				continue
+			}
+			var pairs [][2]uint64
+			switch f.Kind() {
+			case reflect.Uint64:
+				pairs = [][2]uint64{{1 << 53, 1<<53 + 1}, {1<<63 + 1024, 1<<63 + 1025}, {7, 8}}
+			case reflect.Int64:
+				pairs = [][2]uint64{{1 << 53, 1<<53 + 1}, {7, 8}}
+			case reflect.Uint32, reflect.Int32:
+				pairs = [][2]uint64{{7, 8}}
+			default:
+				continue
+			}
+			for _, pr := range pairs {
+				set := func(x uint64) {
+					if f.Kind() == reflect.Uint64 || f.Kind() == reflect.Uint32 {
+						f.SetUint(x)
+					} else {
+						f.SetInt(int64(x))
+					}
+				}
+				set(pr[0])
+				ka := aminoKey(msg)
+				set(pr[1])
+				kb := aminoKey(msg)
+				h.r.Count("oracle:C02/amino/field-injectivity")
+				if ka == kb && !strings.HasPrefix(ka, "panic:") {
+					insensitive = append(insensitive, fmt.Sprintf("%s.%s(%d vs %d)", url, st.Type().Field(i).Name, pr[0], pr[1]))
+				}
+			}
+			set := f
+			_ = set
+		}
+	}
+	sort.Strings(insensitive)
+	h.r.Extra["amino_sign_bytes_field_insensitive"] = insensitive
+	if len(insensitive) > 0 {
+		h.r.Fail("C02/amino/sign-bytes-ignore-a-field", "legacy-amino sign bytes are the same for two messages that differ in a field: "+strings.Join(insensitive, " ; "), nil)
+	}
 	ekeys, ecoll := collisions(eg)
 	akeys, acoll := collisions(ag)
 	h.eipCollisions = "message types GenEIP712SignBytesFromMsg cannot tell apart (same Type() string and JSON): " + strings.Join(ecoll, " ; ")
